@@ -12,6 +12,9 @@ use crate::refcodec::*;
 use hcobs::Encoder;
 use std::num::NonZeroUsize;
 
+/// bound on the encoded length within these harnesses (L <= 6, limits >= (2, 3))
+const DR: usize = 14;
+
 fn limits() -> (usize, usize) {
     hcobs::verif_hooks::limits()
 }
@@ -75,7 +78,7 @@ fn drain(enc: &mut Encoder<'_>, drained: &mut Buf, exp: &Buf, lag_bound: usize, 
                 i += 1;
             }
             let mut i = 0;
-            while i < CAP {
+            while i < DR {
                 if i < bytes {
                     let v = byte_at(c.stable_prefix(), i).unwrap();
                     drained.push(v);
@@ -91,7 +94,7 @@ fn drain(enc: &mut Encoder<'_>, drained: &mut Buf, exp: &Buf, lag_bound: usize, 
             let n: usize = kani::any();
             let want = if n < stable { n } else { stable };
             let mut i = 0;
-            while i < CAP {
+            while i < DR {
                 if i < want {
                     let v = byte_at(c.stable_prefix(), i).unwrap();
                     drained.push(v);
@@ -109,7 +112,8 @@ fn drain(enc: &mut Encoder<'_>, drained: &mut Buf, exp: &Buf, lag_bound: usize, 
 fn enc_vs_ref<const L: usize>(c1: usize, c2: usize, drains: u8, method_fixed: u8, arena_chunk: usize, witness: bool) {
     let (a, b) = limits();
     let data: [u8; L] = kani::any();
-    let exp = ref_encode(&data, L, a, b);
+    let exp = ref_encode::<L>(&data, L, a, b);
+    assert!(exp.len <= DR);
     let lag_bound = arena_chunk + b + 2;
     let mut drained = Buf::new();
     let mut enc = Encoder::new();
@@ -173,7 +177,7 @@ macro_rules! enc_proofs {
     ($($name:ident = ($l:expr, $c1:expr, $c2:expr, $dr:expr, $m:expr, $chunk:expr, $w:expr);)*) => {
         $(
             #[kani::proof]
-            #[kani::unwind(26)]
+            #[kani::unwind(16)]
             fn $name() {
                 enc_vs_ref::<$l>($c1, $c2, $dr, $m, $chunk, $w)
             }
@@ -181,24 +185,26 @@ macro_rules! enc_proofs {
     };
 }
 
-// name = (L, c1, c2, drains(0 none / 1 symbolic / 2 none-only / 3 slices / 4 bytes), method(0..2 fixed, 3 symbolic), arena chunk, witness)
+// name = (L, c1, c2, drains(0 none / 1 symbolic / 3 slices / 4 bytes), method(0 borrow, 1 copy, 2 anchored, 3 symbolic), arena chunk, witness)
 enc_proofs! {
-    enc_l4_c0_4 = (4, 0, 4, 0, 3, 32, false);
-    enc_l4_c1_4 = (4, 1, 4, 0, 3, 32, false);
-    enc_l4_c2_4 = (4, 2, 4, 0, 3, 32, false);
-    enc_l4_c3_4 = (4, 3, 4, 0, 3, 32, false);
-    enc_l4_c2_4_witness = (4, 2, 4, 0, 3, 32, true);
-    enc_l4_c1_3 = (4, 1, 3, 0, 3, 32, false);
-    enc_l4_c2_3 = (4, 2, 3, 0, 3, 32, false);
-    enc_l5_c2_5 = (5, 2, 5, 0, 3, 32, false);
-    enc_l5_c3_5 = (5, 3, 5, 0, 3, 32, false);
-    enc_l6_c3_6 = (6, 3, 6, 0, 3, 32, false);
-    enc_l6_c2_4 = (6, 2, 4, 0, 3, 32, false);
-    enc_l3_copy = (3, 1, 3, 0, 1, 32, false);
-    enc_l3_borrow = (3, 1, 3, 0, 0, 32, false);
+    enc_l3_c1_copy = (3, 1, 3, 0, 1, 32, false);
+    enc_l3_c1_borrow = (3, 1, 3, 0, 0, 32, false);
+    enc_l4_c0_copy = (4, 0, 4, 0, 1, 32, false);
+    enc_l4_c1_copy = (4, 1, 4, 0, 1, 32, false);
+    enc_l4_c2_copy = (4, 2, 4, 0, 1, 32, false);
+    enc_l4_c2_copy_witness = (4, 2, 4, 0, 1, 32, true);
+    enc_l4_c3_copy = (4, 3, 4, 0, 1, 32, false);
+    enc_l4_c2_borrow = (4, 2, 4, 0, 0, 32, false);
+    enc_l4_c1_borrow = (4, 1, 4, 0, 0, 32, false);
+    enc_l4_c2_anchored = (4, 2, 4, 0, 2, 32, false);
+    enc_l4_c13_copy = (4, 1, 3, 0, 1, 32, false);
+    enc_l5_c2_copy = (5, 2, 5, 0, 1, 32, false);
+    enc_l5_c3_borrow = (5, 3, 5, 0, 0, 32, false);
+    enc_l6_c3_copy = (6, 3, 6, 0, 1, 32, false);
+    enc_l4_c2_mixed = (4, 2, 4, 0, 3, 32, false);
     drain_l4_c2_slices = (4, 2, 4, 3, 1, 32, false);
     drain_l4_c2_bytes = (4, 2, 4, 4, 1, 32, false);
-    drain_l4_c1_bytes = (4, 1, 4, 4, 3, 32, false);
-    drain_l4_c3_slices = (4, 3, 4, 3, 3, 32, false);
+    drain_l4_c1_bytes = (4, 1, 4, 4, 1, 32, false);
+    drain_l4_c3_slices = (4, 3, 4, 3, 0, 32, false);
     drain_l5_c2_sym = (5, 2, 5, 1, 1, 32, false);
 }
